@@ -14,9 +14,28 @@ FUNC_CBMC_FLAGS = ["--no-malloc-may-fail", "--no-undefined-shift-check", "--no-s
                    "--no-bounds-check", "--no-pointer-check", "--no-div-by-zero-check",
                    "--no-self-loops-to-assumptions", "--no-pointer-primitive-check", "--object-bits", "16",
                    "--sat-solver", "cadical"]
-CRASH_CBMC_FLAGS = ["--bounds-check", "--pointer-check", "--div-by-zero-check", "--float-overflow-check",
-                    "--nan-check", "--undefined-shift-check", "--unwinding-assertions", "--no-malloc-may-fail",
-                    "--no-self-loops-to-assumptions", "--object-bits", "16", "--sat-solver", "cadical"]
+# as observed (ps) for a default `cargo kani` run of this Kani version
+CRASH_CBMC_FLAGS = ["--no-malloc-may-fail", "--no-undefined-shift-check", "--no-signed-overflow-check", "--nan-check",
+                    "--no-self-loops-to-assumptions", "--no-pointer-primitive-check", "--object-bits", "16",
+                    "--sat-solver", "cadical"]
+
+
+def harness_unwind(h):
+    """the #[kani::unwind(N)] of a harness (Kani passes it to CBMC as --unwind N)"""
+    try:
+        txt = open(h.file).read()
+    except Exception:
+        return None
+    m = re.search(r"#\[kani::unwind\((\d+)\)\][^\n]*\n(?:\s*#\[[^\n]*\n)*\s*fn %s\b" % re.escape(h.name), txt)
+    if m:
+        return int(m.group(1))
+    m = re.search(r"S!\(%s,\s*(\d+)," % re.escape(h.name), txt)
+    if m:
+        return int(m.group(1))
+    if re.search(r"H!\(%s," % re.escape(h.name), txt):
+        m = re.search(r"macro_rules! H \{.*?#\[kani::unwind\((\d+)\)\]", txt, re.S)
+        return int(m.group(1)) if m else None
+    return None
 
 SIZES = {"u8": 1, "i8": 1, "bool": 1, "u16": 2, "i16": 2, "u32": 4, "i32": 4, "char": 4, "f32": 4,
          "u64": 8, "i64": 8, "usize": 8, "isize": 8, "f64": 8, "u128": 16, "i128": 16}
@@ -86,8 +105,10 @@ def extract(trace):
     return vals
 
 
-def trace_for_property(goto_file, prop_name, cls, timeout=900, mem_gb=24):
-    flags = CRASH_CBMC_FLAGS if cls == "crash" else FUNC_CBMC_FLAGS
+def trace_for_property(goto_file, prop_name, cls, timeout=900, mem_gb=24, unwind=None):
+    flags = list(CRASH_CBMC_FLAGS if cls == "crash" else FUNC_CBMC_FLAGS)
+    if unwind:
+        flags += ["--unwind", str(unwind)]
     cmd = ["cbmc"] + flags + ["--slice-formula", "--trace", "--compact-trace", "--property", prop_name,
                               goto_file, "--json-ui"]
     import resource
